@@ -27,4 +27,39 @@ PROPS = {
    'nontrivial': lambda r: sw(r, 'switch_in_free_mt', 'switch_in_tf_collect', 'switch_in_delayed_partial') > 0,
    'must_reach': ['switch_in_free_mt', 'switch_in_tf_collect', 'free_mt_cas_retry', 'tf_collect_cas_retry', 'delayed_freeing_observed', 'spurious_cas_injected'],
  },
+ 'C08': {
+   'families': [('c08_drain', 6, ALL), ('c08_prodcons', 1, ALL)],
+   'runs': {'quick': 1500, 'thorough': 100000},
+   'rule': 'non-trivial = the owner ran _mi_heap_delayed_free_partial / _mi_page_thread_free_collect while a remote was preempted inside its free (context switch inside the delayed-free functions); distinct = distinct (API hash, hot-switch signature)',
+   'nontrivial': lambda r: sw(r, 'switch_in_free_mt', 'switch_in_tf_collect', 'switch_in_delayed_partial') > 0,
+   'must_reach': ['switch_in_free_mt', 'switch_in_delayed_partial', 'delayed_freeing_observed'],
+ },
+ 'C09': {
+   'families': [('c09_exit', 5, ALL), ('c09_userheap_adopter', 2, ALL)],
+   'runs': {'quick': 1500, 'thorough': 100000},
+   'rule': 'non-trivial = at least one segment was abandoned and one reclaimed in the run; distinct = distinct (API hash, hot-switch signature)',
+   'nontrivial': lambda r: sw(r, 'segment_abandoned') > 0 and sw(r, 'segment_reclaimed') > 0,
+   'must_reach': ['segment_abandoned', 'segment_reclaimed', 'switch_in_reclaim', 'os_abandoned_list_used', 'census', 'thread_id_reused'],
+ },
+ 'C10': {
+   'families': [('c10_single', 4, ALL), ('c10_concurrent', 4, ALL), ('c09_userheap_adopter', 1, ALL)],
+   'runs': {'quick': 2500, 'thorough': 120000},
+   'rule': 'non-trivial = at least one heap delete/destroy executed and (concurrent family) a context switch inside the delayed-free functions; distinct = distinct (API hash, hot-switch signature)',
+   'nontrivial': lambda r: sw(r, 'heap_absorb', 'heap_destroy') > 0,
+   'must_reach': ['heap_absorb', 'heap_destroy', 'use_delayed_spin'],
+ },
+ 'C11': {
+   'families': [('c11_repeat', 1, ALL)],
+   'runs': {'quick': 240, 'thorough': 10000},
+   'rule': 'non-trivial = the give-back oracle ran at quiescence after >= 3 repetitions; distinct = distinct event hash',
+   'nontrivial': lambda r: sw(r, 'giveback_checked') > 0, 'distinct_by': 'event',
+   'must_reach': ['giveback_checked'],
+ },
+ 'C18': {
+   'families': [('c18_purge', 1, ALL)],
+   'runs': {'quick': 900, 'thorough': 60000},
+   'rule': 'non-trivial = at least one watched freed block was checked against the purge log after the activity rounds (or the delay=-1 no-purge rule ran); distinct = distinct event hash',
+   'nontrivial': lambda r: True, 'distinct_by': 'event',
+   'must_reach': ['segment_purge_by_time'],
+ },
 }
